@@ -51,9 +51,12 @@ def dino_call(col, cfg, B):
     except Exception as e:
         return f"exception:{type(e).__name__}", repr(e)
     H, W = cfg["grid"]
-    m = ctx.get("mask")
-    if m is None or tuple(m.shape) != (B * V, H, W) or m.dtype != torch.bool:
-        return "mask_shape_or_dtype", f"{None if m is None else (tuple(m.shape), m.dtype)}"
+    try:
+        m = ctx.get("mask")
+        if m is None or tuple(m.shape) != (B * V, H, W) or m.dtype != torch.bool:
+            return "mask_shape_or_dtype", f"{None if m is None else (tuple(m.shape), m.dtype)}"
+    except Exception as e:
+        return f"output_malformed:{type(e).__name__}", repr(e)
     counts = [int(x.sum()) for x in m]
     nonempty = sum(1 for c in counts if c > 0)
     budget = int(math.floor(B * V * cfg["prob"] + 1e-9))
@@ -197,7 +200,10 @@ def ijepa_body(cfg, steps):
                 out, ctx = ijepa_collate(col, cfg, ChoiceRng(ch, int_full=8))
             except Exception as e:
                 return f"exception:{type(e).__name__}", f"step {step}: {e!r}"
-            kind, info, o = ijepa_check(cfg, out, ctx, step)
+            try:
+                kind, info, o = ijepa_check(cfg, out, ctx, step)
+            except Exception as e:
+                kind, info, o = f"output_malformed:{type(e).__name__}", repr(e), None
             if kind:
                 return kind, f"step {step}: {info}"
             obs.append(o)
@@ -221,7 +227,10 @@ def ijepa_seeded(cfg, p):
                 p.violation(f"C17:ijepa:exception:{type(e).__name__}|min_keep={'0' if cfg['min_keep'] == 0 else '>0'}", dict(case, seed=seed, step=step),
                             f"{cfg} seed {seed} step {step}: {e!r}")
                 break
-            kind, info, o = ijepa_check(cfg, out, ctx, step)
+            try:
+                kind, info, o = ijepa_check(cfg, out, ctx, step)
+            except Exception as e:
+                kind, info, o = f"output_malformed:{type(e).__name__}", repr(e), None
             if kind:
                 p.violation(f"C17:ijepa:{kind}", dict(case, seed=seed, step=step), f"{cfg} seed {seed} step {step}: {info}")
                 break
